@@ -187,6 +187,9 @@ type Mutation struct {
 	Op    string // "value" | "drop-last" | "dup-first" | "swap-elems" | "hint-swap" | "swap-other:<field>" | "null"
 	New   any    // replacement value (for value / hint-swap / swap-other)
 	Descr string
+	// Rehash: after the change, the hash of the (node) operation is recomputed over its signs, as anybody can:
+	// only the signature check is left to notice the change
+	Rehash bool
 }
 
 func (m Mutation) Field() string { return m.Rel.Generic() }
@@ -384,19 +387,40 @@ func (w *World) UnitMutations(root any, u Unit, hints []string, donors []any) []
 			if dsign == nil || len(signs) == 0 {
 				continue
 			}
-			sp := signs[0]
-			s, _ := Get(uv, sp).(map[string]any)
-			if string(RenderJSON(s)) == string(RenderJSON(dsign)) {
-				continue
-			}
-			ms = append(ms, Mutation{Unit: u, Rel: sp, Op: "swap-other:sign", New: dsign})
-			for _, f := range signFields {
-				if v, ok := dsign[f]; ok && !sameValue(v, s[f]) {
-					ms = append(ms, Mutation{Unit: u, Rel: sp.with(f), Op: "swap-other:" + f, New: v})
+			for _, sp := range signs {
+				s, _ := Get(uv, sp).(map[string]any)
+				same := true
+				for _, f := range signFields {
+					if !sameValue(dsign[f], s[f]) {
+						same = false
+					}
+				}
+				if same {
+					// the donor signed the same content in the same millisecond: not a change
+					continue
+				}
+				ms = append(ms, Mutation{Unit: u, Rel: sp, Op: "swap-other:sign", New: dsign})
+				for _, f := range signFields {
+					if v, ok := dsign[f]; ok && !sameValue(v, s[f]) {
+						ms = append(ms, Mutation{Unit: u, Rel: sp.with(f), Op: "swap-other:" + f, New: v})
+					}
 				}
 			}
 			if df, ok := dm["fact"].(map[string]any); ok && string(RenderJSON(df)) != string(RenderJSON(fact)) {
 				ms = append(ms, Mutation{Unit: u, Rel: Path{"fact"}, Op: "swap-other:fact", New: df})
+			}
+		}
+		if u.Kind == "operation" {
+			n := len(ms)
+			for i := 0; i < n; i++ {
+				// (dropping or repeating a whole sign and rehashing is not a change of signed content: an operation
+				// with fewer signs is a validly signed operation; only changes inside a sign are re-hashed)
+				if len(ms[i].Rel) >= 2 && ms[i].Rel[0] == "signs" {
+					r := ms[i]
+					r.Rehash = true
+					r.Op += "+rehash"
+					ms = append(ms, r)
+				}
 			}
 		}
 	case "blockmap":
